@@ -14,7 +14,7 @@ from gemato.recursiveloader import ManifestRecursiveLoader
 
 from .. import gen_tree as GT
 from ..common import call, mk_result, run_cli, viol, internal_violations
-from ..model import Model, discovery_obstacle
+from ..model import Model, cli_discovers_root_top
 from ..oracles import write_violations, describe
 from ..seam import Seam
 from ..world import World, blocking_manifest
@@ -100,7 +100,7 @@ def execute(sc):
                 r = call(lib)
                 cli = None
                 real_sub = os.path.realpath(os.path.join(w.root, sub)) == os.path.normpath(os.path.join(w.root, sub))
-                if real_sub and sub and discovery_obstacle(w.root, sub):
+                if real_sub and sub and not cli_discovers_root_top(w.root, sub):
                     real_sub = False
                 if op.get('api') == 'both' and lm is None and real_sub:
                     cli = run_cli(['verify', '--keep-going', os.path.join(w.root, sub) if sub else w.root])
